@@ -236,6 +236,7 @@ def build_and_audit(prop: str, thorough=False):
             res['failures'].append('extract.py failed: ' + out[-400:])
         else:
             res['pins_unavailable'] = [l.split(' ', 1)[1] for l in out.split('\n') if l.startswith('PIN-UNAVAILABLE ')]
+            res['translations_unavailable'] = [l.split(' ', 1)[1] for l in out.split('\n') if l.startswith('TRANSLATION-UNAVAILABLE ')]
         rc, out = run(['lake', 'build', 'peldrv'], cwd=LEAN)
         res['driver_ok'] = rc == 0 and os.path.exists(DRV)
         if not res['driver_ok']:
@@ -250,12 +251,30 @@ def build_and_audit(prop: str, thorough=False):
             m = re.findall(r'error: (\S+\.lean:\d+:\d+: .*)', out)
             res['failures'].extend(m[:10])
             return res
+        # source tie: PelProps/Tie<prop>.lean proves the hand-written model equal to the definitions that harness/trans_*.py
+        # regenerated from the current source text (PelGen/Gen*.lean); it is a separate module so that a broken tie does not
+        # take the property theorems down with it
+        audit_mods = [prop]
+        tie = 'Tie' + prop
+        if os.path.exists(os.path.join(LEAN, 'PelProps', tie + '.lean')):
+            tnames = theorem_names(tie)
+            res['obligations'] += len(tnames)
+            rc, out = run(['lake', 'build', 'PelProps.' + tie], cwd=LEAN)
+            if rc != 0:
+                res['log'] += out[-6000:]
+                res['failures'].append('source tie broken: lake build PelProps.%s failed (a function regenerated from the source text is no longer provably equal to the model)' % tie)
+                m = re.findall(r'error: (\S+\.lean:\d+:\d+: .*)', out)
+                res['failures'].extend(m[:10])
+            else:
+                names = names + tnames
+                audit_mods.append(tie)
         hits = grep_forbidden()
         if hits:
             res['failures'].append('forbidden constructs: ' + '; '.join(hits[:5]))
         audit = os.path.join(LEAN, '.lake', 'audit_%s.lean' % prop)
         with open(audit, 'w') as f:
-            f.write('import PelProps.%s\n' % prop)
+            for am in audit_mods:
+                f.write('import PelProps.%s\n' % am)
             for n in names:
                 f.write('#print axioms %s\n' % n)
         rc, out = run(['lake', 'env', 'lean', audit], cwd=LEAN)
@@ -278,7 +297,7 @@ def build_and_audit(prop: str, thorough=False):
             else:
                 res['failures'].append('theorem %s uses axioms %s' % (n, ax))
         if thorough:
-            rc, out = run(['lake', 'env', 'leanchecker', 'PelProps.' + prop], cwd=LEAN, timeout=3000)
+            rc, out = run(['lake', 'env', 'leanchecker'] + ['PelProps.' + am for am in audit_mods], cwd=LEAN, timeout=3000)
             res['leanchecker'] = 'ok' if rc == 0 else 'failed: ' + out[-300:]
             if rc != 0:
                 res['failures'].append('leanchecker failed on PelProps.' + prop)
@@ -451,6 +470,7 @@ class Check:
             'theorems': (self.proof or {}).get('theorems', {}),
             'proof_failures': (self.proof or {}).get('failures', []),
             'pins_unavailable': (self.proof or {}).get('pins_unavailable', []),
+            'translations_unavailable': (self.proof or {}).get('translations_unavailable', []),
             'evaluations': self.evaluations,
             'distinct_nontrivial': len(self.nontrivial),
             'rule': rule,
